@@ -1,7 +1,7 @@
 """Normalised, order-free views of every public report of a System (DESIGN A.4); used by the differential oracles of
 C12, C15, C16, C17.  Tables are keyed by (Phase, Component | Rail | Active phase), never by row position."""
 import io, json, os, math, contextlib, re
-from .common import quiet_call, VERIF, close
+from .common import quiet_call, VERIF, close, workdir as _wd, cleanup_workdir as _cw
 
 
 def _cell(v):
@@ -86,8 +86,7 @@ def parse_tree(text):
 
 
 def save_doc(s, tag=""):
-    d = os.path.join(VERIF, ".work", "rep-%d" % os.getpid())
-    os.makedirs(d, exist_ok=True)
+    d = _wd("rep")
     path = os.path.join(d, "s%s.json" % tag)
     s.save(path)
     with open(path) as f:
@@ -137,8 +136,7 @@ def report(s, name):
         if name == "diag":
             from sysloss.diagram import make_diag
             from .dotparse import parse
-            d = os.path.join(VERIF, ".work", "rep-%d" % os.getpid())
-            os.makedirs(d, exist_ok=True)
+            d = _wd("rep")
             path = os.path.join(d, "g.raw")
             quiet_call(make_diag, s, fname=path)
             with open(path) as f:
